@@ -127,9 +127,10 @@ def c04_r4_args(script, rt, OneDGrid):
             return (type(e).__name__,)
 
     def eq(a, b, f32=False):
-        if f32:       # a domain handed over in single precision: its image is computed in single precision (the nodes and weights are not touched)
+        if f32:       # a domain handed over in single precision: its image is computed in single precision (the nodes and weights are not touched;
+            # HandyMod in float32 cancels: 7e-5 at rmax - rmin = 1e3, hence 1e-3)
             return a[0] == b[0] and (a[0] != "ok" or (np.array_equal(a[1], b[1], equal_nan=True) and np.array_equal(a[2], b[2], equal_nan=True)
-                                                       and np.allclose(a[3], b[3], rtol=1e-6, atol=1e-6, equal_nan=True)))
+                                                       and np.allclose(a[3], b[3], rtol=1e-3, atol=1e-5, equal_nan=True)))
         return a[0] == b[0] and all(np.array_equal(x, y, equal_nan=True) for x, y in zip(a[1:], b[1:]))
     bad = []
     with np.errstate(all="ignore"):
@@ -330,7 +331,8 @@ def _key(m, spec, gs, kind):
             return m.HYP_KEY
         # the listed finding (inverse formula at inf = inf/inf).  Its text names trim_inf=False; the declared codomain is (rmin, inf) with
         # trim_inf=True as well, so a caller's grid on (rmin, inf) gets the same (-1, nan) there — same mechanism, same key (told to the lead)
-        if spec.get("inv") and spec["cls"] in ("BeckeRTransform", "HandyRTransform") and hi == INF:
+        # round 5: InverseRTransform(Hyperbolic) on (0, inf): r/(a + b r) at inf = inf/inf, limit 1/b — the same mechanism again (told to the lead)
+        if spec.get("inv") and spec["cls"] in ("BeckeRTransform", "HandyRTransform", "HyperbolicRTransform") and hi == INF:
             return m.INVNAN_KEY
     return f"rtransform.transform_1d_grid:{'Inverse:' if spec.get('inv') else ''}{spec['cls']}:{kind}"
 
